@@ -139,7 +139,8 @@ R_LOAD = dict(
              + ['%s.registry.active < %s' % (RCM, N), 'g_root_entered && g_entered == %s.registry.active' % RCM] + zero(LIFE1, (1,)),
     # no guard is consulted: no guard mark is in the frame
     assigns=['__CPROVER_object_whole(self)', 'stream->_cursor', 'g_clock', 'g_entered', 'g_root_entered'] + LIFE_M,
-    ensures=[('C12', '%s.registry.active == g_d' % RCM), ('C12', 'g_root_entered && g_entered == g_d'), ('C12', '%s.request._b0.destination == 255' % RCM)]
+    # (load() also clears the outstanding request and the plan data; C12 does not ask for that, so it is not demanded here)
+    ensures=[('C12', '%s.registry.active == g_d' % RCM), ('C12', 'g_root_entered && g_entered == g_d')]
             + [('C12', x) for x in life_effect('__CPROVER_old(%s.registry.active)' % RCM, 'g_d')])
 LOAD_ENTER = dict(
     requires_target=[fresh('self'), fresh('stream'), fresh('stream->_buffer', '*stream->_buffer')],
